@@ -440,10 +440,12 @@ func (p *Parser) parseBuffer(buf []byte, last bool) error {
 				p.mode = dotMap
 				continue
 			}
+			p.mode = dotMap
 			for i, b = range buf[off+1:] {
 				if digitMap[b] != numDigit {
 					break
 				}
+				p.mode = fracMap
 				p.num.Frac = p.num.Frac*10 + uint64(b-'0')
 				p.num.Div *= 10.0
 				if gen.BigLimit <= p.num.Div {
@@ -455,7 +457,6 @@ func (p *Parser) parseBuffer(buf []byte, last bool) error {
 			if digitMap[b] == numDigit {
 				off++
 			}
-			p.mode = fracMap
 		case numFrac:
 			p.num.AddFrac(b)
 			p.mode = fracMap
